@@ -255,7 +255,7 @@ def body_bytes(kind, idx):
     return b'<html>hello body %d</html>\n' % idx
 
 
-SHAPES = ('canon', 'nospace', 'lf', 'folded', 'empty', 'long', 'wide', 'noreason')
+SHAPES = ('canon', 'nospace', 'lf', 'folded', 'empty', 'long', 'wide', 'noreason', 'foldedblank', 'nocolon', 'hibyte', 'huge')
 
 
 def response_wire(shape, body, idx):
@@ -274,6 +274,26 @@ def response_wire(shape, body, idx):
         h = (b'HTTP/1.1 200 OK\r\nX-Long: part one\r\n   part two\r\nContent-Type: image/png\r\n'
              b'Content-Length: %d\r\n\r\n' % n)
         return h, body, 200, 'image/png'
+    if shape == 'foldedblank':
+        # a folded field whose continuation line holds only white space: NOT the end of the header block
+        h = (b'HTTP/1.1 200 OK\r\nX-Long: part one\r\n   \r\nContent-Type: text/xml\r\n'
+             b'Content-Length: %d\r\n\r\n' % n)
+        return h, body, 200, 'text/xml'
+    if shape == 'nocolon':
+        # a stray line without a colon: the HTTP client parses headers leniently and accepts it
+        h = (b'HTTP/1.1 200 OK\r\nstray line without colon\r\nContent-Type: text/csv\r\n'
+             b'Content-Length: %d\r\n\r\n' % n)
+        return h, body, 200, 'text/csv'
+    if shape == 'hibyte':
+        # bytes that str.splitlines() treats as line breaks (0x85, 0x0b, 0x0c) inside a field value
+        h = (b'HTTP/1.1 200 OK\r\nX-Note: caf\x85 \x0b \x0c end\r\nContent-Type: audio/ogg\r\n'
+             b'Content-Length: %d\r\n\r\n' % n)
+        return h, body, 200, 'audio/ogg'
+    if shape == 'huge':
+        # more than the CDX writer looks at; whether the client accepts a header this long is its business
+        pad = b''.join(b'X-Pad-%04d: %s\r\n' % (i, b'q' * 80) for i in range(760))
+        h = b'HTTP/1.1 200 OK\r\n' + pad + b'Content-Type: video/mp4\r\nContent-Length: %d\r\n\r\n' % n
+        return h, body, 200, 'video/mp4'
     if shape == 'empty':
         return b'HTTP/1.1 200 OK\r\n\r\n', body, 200, '-'
     if shape == 'long':
@@ -499,8 +519,25 @@ class Exec(object):
                     raise
                 return
             raise RuntimeError('the truncated response was accepted by the HTTP client')
+        if e['shape'] == 'huge':
+            # only through the real client; a client that refuses the header leaves no response record (fine)
+            try:
+                return self.do_net(rec, url, head, body, e)
+            except ValueError as err:          # ProtocolError: header too big
+                if self.fs.injected is not None:
+                    raise
+                self.wire.pop(url, None)
+                return
         if e.get('mode') == 'net':
             return self.do_net(rec, url, head, body, e)
+        gen = self._scripted_http(rec, url, head, body)
+        next(gen)                       # request record written
+        if e.get('ovl'):
+            return gen                  # the caller finishes this session after the NEXT exchange (overlapping workers)
+        for _ in gen:
+            pass
+
+    def _scripted_http(self, rec, url, head, body):
         s = rec.new_http_recorder_session()
         try:
             req = HTTPRequest(url)
@@ -509,6 +546,7 @@ class Exec(object):
             s.begin_request(req)
             s.request_data(req.to_bytes())
             s.end_request(req)
+            yield 'request-written'
             resp = HTTPResponse()
             # exactly what Stream.read_response does: the lines before the empty line are parsed
             lines = head.splitlines(True)[:-1]
@@ -611,10 +649,17 @@ class Exec(object):
             if self.scn['params'].get('log'):
                 logging.getLogger('wpull.verif').info('recorder started (entry for the log record) \u00e4')
             idx = first_idx
+            held = None
             for e in run['ex']:
                 idx += 1
                 try:
-                    self.do_exchange(rec, e, idx)
+                    pending = self.do_exchange(rec, e, idx)
+                    if held is not None:
+                        for _ in held:      # the overlapped session receives its response only now
+                            pass
+                        held = None
+                    if pending is not None:
+                        held = pending
                     self.mark('send', ok=True)
                 except Injected:
                     self.mark('send', ok=False)
@@ -623,6 +668,9 @@ class Exec(object):
                         raise
                     self.mark('send', ok=False)
             try:
+                if held is not None:
+                    for _ in held:
+                        pass
                 rec.close()
             except OSError:
                 if self.fs.injected is None:
